@@ -405,6 +405,7 @@ type LoopSpec struct {
 	Invariants []*Clause
 	Decreases  *Clause
 	Unroll     int // >0: unroll with unwinding assertion instead of cutting
+	SplitTail  bool // split only at if statements in tail position or whose branch ends in a jump
 	SplitPaths bool // verify the loop body once per path through its if statements (no merging at their joins)
 }
 
@@ -796,6 +797,9 @@ func ParseContractText(data, path, pkg string) (*ContractFile, error) {
 				ls.Unroll = k
 			case "split-paths":
 				ls.SplitPaths = true
+			case "split-tail":
+				ls.SplitPaths = true
+				ls.SplitTail = true
 			default:
 				return nil, errf(rc, "unknown loop clause %q", f[1])
 			}
